@@ -77,6 +77,10 @@ pub struct Shape {
     /// operations at even positions)
     #[serde(default)]
     pub fx_overwrite: bool,
+    /// "copy" operations assign their first cell as a fraction with deferred inversion (`Rational`): x as (3x)/3, and every
+    /// other one the value zero as 7/0 (a deferred inverse of zero, which evaluates to zero)
+    #[serde(default)]
+    pub rational: bool,
     /// every advice column and every lookup table column carries an annotation (names only: they must not influence keys)
     #[serde(default)]
     pub annotate: bool,
@@ -248,6 +252,10 @@ impl ShapeCircuit {
         }
         if sh.perm >= 2 {
             menu.push(10);
+            if sh.rational {
+                // two consecutive copy operations: one at an even position (the value zero as 7/0), one at an odd one
+                menu.push(10);
+            }
         }
         if sh.perm >= 1 {
             menu.push(12);
@@ -786,6 +794,19 @@ impl Circuit<F> for ShapeCircuit {
                             r.assign_advice(|| "y", cfg.a[1], 0, || self.val(oi, 1, xf))?;
                             r.assign_advice(|| "z", cfg.a[2], 0, || self.val(oi, 2, xf * xf))?;
                         }
+                        Op::Copy { x } if self.shape.rational => {
+                            use midnight_proofs::utils::rational::Rational;
+                            let xf = if oi % 2 == 0 { F::ZERO } else { F::from(*x) };
+                            let three = F::from(3u64);
+                            let c1 = r.assign_advice(
+                                || "x",
+                                cfg.a[0],
+                                0,
+                                || self.val(oi, 0, xf).map(|v| if v == F::ZERO { Rational::Rational(F::from(7u64), F::ZERO) } else { Rational::Rational(v * three, three) }),
+                            )?;
+                            let c2 = r.assign_advice(|| "y", cfg.a[1], 1, || self.val(oi, 1, xf))?;
+                            r.constrain_equal(c1.cell(), c2.cell())?;
+                        }
                         Op::Copy { x } => {
                             let xf = F::from(*x);
                             let c1 = r.assign_advice(|| "x", cfg.a[0], 0, || self.val(oi, 0, xf))?;
@@ -844,6 +865,7 @@ pub fn random_shape(seed: u64) -> Shape {
         fx_overwrite: rng.gen_range(0..3) == 0,
         fill_last: false,
         annotate: seed % 3 == 0,
+        rational: seed % 4 == 1,
         trash: rng.gen_range(0..=2),
         perm: rng.gen_range(0..=3),
         seed,
